@@ -95,6 +95,12 @@ func (e *Engine) modSetOf(fn *ssa.Function) *ModSet {
 	if ms, ok := e.modsets[fn]; ok {
 		return ms
 	}
+	if fc := e.contractOf(fn); fc != nil && fc.Trusted && fc.Opts["modifies"] == "none" {
+		// trusted contract with a declared empty frame over the modelled heap (listed in evidence)
+		ms := newModSet()
+		e.modsets[fn] = ms
+		return ms
+	}
 	ms := newModSet()
 	e.modsets[fn] = ms // provisional (recursion -> fixpoint below)
 	for iter := 0; iter < 10; iter++ {
@@ -169,6 +175,12 @@ func (e *Engine) instrMods(in ssa.Instruction, ms *ModSet, inLoop map[*ssa.Basic
 			for _, ki := range tmp.Keys {
 				ki.FreshOnly = true
 				ms.add(ki)
+			}
+		}
+	case *ssa.Next:
+		if rg, ok := x.Iter.(*ssa.Range); ok {
+			if mt, ok := rg.X.Type().Underlying().(*types.Map); ok {
+				ms.add(visitedKey(rg, mt))
 			}
 		}
 	case *ssa.Send:
@@ -319,4 +331,8 @@ func (e *Engine) loopFrameInfo(li *loopInfo) *loopFrame {
 		}
 	}
 	return lf
+}
+
+func visitedKey(rg *ssa.Range, mt *types.Map) KeyInfo {
+	return KeyInfo{Key: "GH!visited!" + sanitize(rg.Parent().Name()) + "!" + rg.Name(), VisitedOf: mt}
 }
